@@ -74,7 +74,7 @@ def enc(v):
     if t is dict:
         return "m" + "".join(enc(k) + enc(x) for k, x in v.items()) + ";"
     if t is datetime.timedelta:
-        return "Di%d;i%d;i%d;" % (v.days, v.seconds, v.microseconds)
+        return "D%d;%d;%d;" % (v.days, v.seconds, v.microseconds)
     if t is Obj:
         return "i%d;".replace("i", "o", 1) % v.n
     if Ed25519PublicKey is not None and isinstance(v, Ed25519PublicKey):
